@@ -214,6 +214,10 @@ def correspondence(pid, run, tier, seed, outdir, boost=1):
             r['stats'][k] = r['stats'].get(k, 0) + v
         for c in meta['cases']:
             k = c['case']
+            if c.get('inconclusive'):
+                # the harness could not complete the scenario (a time-out on real sockets): counted, never a disagreement by itself
+                r['inconclusive'] = r.get('inconclusive', 0) + 1
+                continue
             r['cases'] += 1
             v = verd.get(k)
             c['_file'] = vf
@@ -238,6 +242,9 @@ def correspondence(pid, run, tier, seed, outdir, boost=1):
             if len(r['samples']) < 3:
                 r['samples'].append({kk: vv for kk, vv in c.items() if not kk.startswith('_')})
     r['coq_s'] = round(t_coq, 2)
+    inc = r.get('inconclusive', 0)
+    if inc and inc * 4 > (r['cases'] + inc):
+        r['errors'].append('%d of %d cases were inconclusive (time-outs): the correspondence could not be evaluated' % (inc, r['cases'] + inc))
     return r
 
 
@@ -379,6 +386,10 @@ def run_check(pid, P, tier, seed, replay, t0):
                 known_hits.append((hit[0], case))
                 continue
             violations.append(('correspondence', 'model and implementation disagree on %s case %s' % (c['name'], case.get('case')), {'run': c['name'], 'case': strip(case)}, False))
+    # an untied site (the translator no longer recognises the expression): the theorems are about a stale definition
+    rel_untied = [u for u in untied if not P.get('sites') or u[0] in P['sites']]
+    if rel_untied and not violations:
+        violations.append(('tie', 'regenerated definitions no longer tied to the source (site not recognised by tools/regen.py; the correspondence search found no difference): %s' % rel_untied, {'untied': rel_untied}, False))
     # 5. decide
     printed = set()
     for f, case in known_hits:
@@ -448,7 +459,7 @@ def evidence(pid, P, tier, seed, obligations, discharged, supporting, names, cor
         'evaluations': evals, 'distinct_nontrivial': distinct,
         'rule': P.get('rule', 'correspondence cases generated from VERIF_SEED; distinct_nontrivial counted by the harness'),
         'samples': samples or [{'theorem': n} for n in names[:3]],
-        'correspondence_runs': [{'name': c['name'], 'cmd': c['cmd'], 'cases': c['cases'], 'agree': c['agree'], 'disagree': len(c['disagree']), 'monitor_fail': len(c['monitor_fail']), 'harness_s': c.get('harness_s'), 'coq_s': c.get('coq_s'), 'errors': c['errors'][:3]} for c in corr],
+        'correspondence_runs': [{'name': c['name'], 'cmd': c['cmd'], 'cases': c['cases'], 'agree': c['agree'], 'disagree': len(c['disagree']), 'monitor_fail': len(c['monitor_fail']), 'inconclusive': c.get('inconclusive', 0), 'harness_s': c.get('harness_s'), 'coq_s': c.get('coq_s'), 'errors': c['errors'][:3]} for c in corr],
         'input_distribution': stats, 'traces_validated_against_impl': sum(c['agree'] for c in corr),
         'make_s': round(dt_make, 1), 'harness_build_s': round(hb_dt, 1), 'notes': notes,
     }
